@@ -25,6 +25,7 @@ import (
 	"runtime"
 	"runtime/debug"
 	"sync/atomic"
+	"time"
 	"unsafe"
 
 	"github.com/philpearl/avro"
@@ -67,6 +68,34 @@ func churn(rounds int) {
 	}
 }
 
+// scribbleBanks draws banks from the pool (through fresh ReadBufs) and overwrites their storage
+func scribbleBanks() {
+	junk := bytes.Repeat([]byte{0xDB}, 4096)
+	types := []reflect.Type{reflect.TypeOf(int64(0)), reflect.TypeOf(float64(0)), reflect.TypeOf(""), reflect.TypeOf([]byte(nil)),
+		reflect.TypeOf(unsafe.Pointer(nil)), timeT, reflect.TypeOf([16]byte{}), reflect.TypeOf([4]byte{}), reflect.TypeOf(int32(0)), reflect.TypeOf(false)}
+	var bufs []*avro.ReadBuf
+	for i := 0; i < 32; i++ {
+		r := avro.NewReadBuf(junk)
+		bufs = append(bufs, r)
+		for j := 0; j < 30; j++ {
+			r.NextAsString(120)
+		}
+		for ti, t := range types {
+			for j := 0; j < 48; j++ {
+				p := r.Alloc(t)
+				if ti < 2 {
+					*(*uint64)(p) = 0xDBDBDBDBDBDBDBDB
+				}
+			}
+		}
+	}
+	runtime.KeepAlive(bufs)
+}
+
+// which datum the i-th record of a file holds: neighbours at distance 1 and 2 differ (mostly), so that a bank handed
+// out again while a record still lives in it shows
+var gcPattern = [4]int{0, 1, 1, 0}
+
 func gcControl(b builtVal, data []byte) (string, bool) {
 	dst := reflect.New(b.typ)
 	if err := b.codec.Read(avro.NewReadBuf(data), dst.UnsafePointer()); err != nil {
@@ -93,9 +122,21 @@ func execC11(op string, a []sx) sx {
 	if !ok {
 		return T("decodeerr")
 	}
+	// a second datum of the same schema: the records of a file differ, so that memory handed out twice shows
+	data2, control2 := data, control
+	if len(a) > 4 {
+		if c2, ok2 := gcControl(b, a[4].bytes()); ok2 {
+			data2, control2 = a[4].bytes(), c2
+		}
+	}
 	examined := 0
+	which := 0 // index of the record being examined (even: first datum, odd: second)
 	check := func(where string, v reflect.Value) *sx {
 		examined++
+		control := control
+		if gcPattern[which%4] == 1 {
+			control = control2
+		}
 		if got := dumpVal(v).String(); got != control {
 			if len(got) > 300 {
 				got = got[:300]
@@ -132,7 +173,11 @@ func execC11(op string, a []sx) sx {
 		for blk := 0; blk < 2; blk++ {
 			var payload []byte
 			for i := 0; i < nrec/2; i++ {
-				payload = append(payload, data...)
+				if gcPattern[(blk*(nrec/2)+i)%4] == 0 {
+					payload = append(payload, data...)
+				} else {
+					payload = append(payload, data2...)
+				}
 			}
 			file = append(file, frameBytes(nrec/2, payload, sync)...)
 		}
@@ -152,14 +197,17 @@ func execC11(op string, a []sx) sx {
 			// points into must stay alive and must not be handed out again
 			churn(1)
 			if bad == nil {
+				which = n - 1
 				bad = check(fmt.Sprintf("in-callback-record-%d", n), reflect.NewAt(b.typ, val).Elem())
 			}
 			// earlier records are still owned by their (unclosed) banks
 			for i, p := range retained {
 				if bad == nil {
+					which = i
 					bad = check(fmt.Sprintf("record-%d-during-callback-%d", i+1, n), p.Elem())
 				}
 			}
+			which = 0
 			return nil
 		})
 		if err != nil {
@@ -167,7 +215,24 @@ func execC11(op string, a []sx) sx {
 		}
 		churn(1)
 		if mode == "filedrop" {
-			// more decoding: whatever is in the bank pool is taken out and written to
+			// give finalizers (if the banks had any) the time to run: a sentinel's finalizer is queued by the same collections
+			sentinel := new([64]byte)
+			ran := make(chan struct{})
+			runtime.SetFinalizer(sentinel, func(*[64]byte) { close(ran) })
+			sentinel = nil
+			for k := 0; k < 20; k++ {
+				runtime.GC()
+				select {
+				case <-ran:
+					k = 20
+				case <-time.After(50 * time.Millisecond):
+				}
+			}
+			time.Sleep(20 * time.Millisecond)
+			// whatever is in the bank pool now is taken out and written to: fresh allocations of the common slot types
+			// (zeroed by Alloc, the pointer-free ones filled with a pattern) and strings copied into the banks
+			scribbleBanks()
+			// ... and more decoding
 			for k := 0; k < 3; k++ {
 				avro.ReadFile(bufio.NewReader(bytes.NewReader(file)), reflect.New(b.typ).Elem().Interface(), func(val unsafe.Pointer, rb *avro.ResourceBank) error {
 					rb.Close()
@@ -178,9 +243,11 @@ func execC11(op string, a []sx) sx {
 		}
 		for i, p := range retained {
 			if bad == nil {
+				which = i
 				bad = check(fmt.Sprintf("record-%d-after-file", i+1), p.Elem())
 			}
 		}
+		which = 0
 		for _, rb := range banks {
 			rb.Close()
 		}
@@ -399,8 +466,11 @@ func genC11(c *ctx) {
 	emit := func(w *wgen, rs *asch, target sx, v *aval) {
 		p := w.plan(rs, v, c.rng.Intn(2) == 0)
 		bs := encodeSpec(p, rs, v)
+		v2 := gcValue(w, rs)
+		timeStrings(w, rs, v2)
+		bs2 := encodeSpec(w.plan(rs, v2, c.rng.Intn(2) == 0), rs, v2)
 		for _, m := range modes {
-			c.emit(T("gc", A(m), target, schemaSx(rs.toSchema()), H(bs)))
+			c.emit(T("gc", A(m), target, schemaSx(rs.toSchema()), H(bs), H(bs2)))
 		}
 	}
 	reps := c.scale(3, 25)
